@@ -34,6 +34,50 @@ def shift(p, names=("time", "self.time")):
     return nf.subst(p, f)
 
 
+TRANSPARENT = {"[]", "len", "vec", "abs", "log", "minimum", "maximum", "cumsum", "diff", "numpy.diff", "tuple", "list"}
+
+
+def _whole_shift_changes(p, names=("time", "self.time")):
+    """True when (a) the whole time array occurs only under constructs whose meaning is element-wise arithmetic
+    (polynomial structure, powers, exp / log, indexing, quadrature slots) and (b) replacing every time t by t + c changes
+    the term.  Then the dependence on the time origin is proved, not merely undecided."""
+    syms = [("sym", n) for n in names]
+    opaque = []
+
+    def walk(q, inside):
+        for m_ in q:
+            for atom, e in m_:
+                if atom in syms and inside:
+                    opaque.append(inside)
+                walk(nf.unkey(e), inside)
+                if atom[0] == "sum":
+                    walk(nf.unkey(atom[1]), inside)
+                elif atom[0] == "fn":
+                    nm = atom[1].split("{")[0]
+                    ok = nm in TRANSPARENT or nm.startswith("scipy.integrate.") or nm.startswith("numpy.trapz") or nm.startswith("numpy.trapezoid")
+                    for a in atom[2]:
+                        walk(nf.unkey(a), inside if ok else (inside or nm))
+
+    walk(p, None)
+    if opaque:
+        return None  # undecided: the grid is handed to something whose dependence on the origin is not known
+
+    def f(a):
+        if a in syms:
+            return nf.add(nf.atom_poly(a), C)
+        if a[0] == "fn" and a[1] == "[]" and len(a[2]) == 2:
+            base = nf.unkey(a[2][0])
+            for s_ in syms:
+                if base == nf.add(nf.atom_poly(s_), C):
+                    return nf.add(nf.fn("[]", nf.atom_poly(s_), nf.unkey(a[2][1])), C)
+        return None
+
+    try:
+        return not nf.is_zero(nf.sub(nf.subst(p, f), p))
+    except nf.NFError:
+        return None
+
+
 def bare_time_uses(p, names=("time", "self.time")):
     """occurrences of the whole time array outside `time[k]` and len(time)"""
     out = []
@@ -114,6 +158,19 @@ def check(ctx):
 
             vh = nf.subst(v, hide)
             bare = bare_time_uses(vh)
+            verdict = _whole_shift_changes(vh) if bare else None
+            if bare and verdict is False:
+                ctx.ok("C17-a", q + f":recovery [{tag}]", m.where(), "recovery depends on the time grid only through differences: the whole grid enters through element-wise arithmetic that is unchanged when every time is shifted by a constant", recovery=nf.show(vh, 400))
+                continue
+            if bare and verdict:
+                # the whole grid enters through arithmetic only (powers, sums, indexing, quadrature slots): shifting every
+                # time by a constant provably changes the term - e.g. np.sqrt(self.time) as an abscissa or a weight
+                ctx.bad(
+                    "C17-a", q + f":recovery [{tag}]", m.where(),
+                    "recovery depends on the time grid only through differences (quadrature abscissa), not on the time origin",
+                    signature="recovery depends on absolute time", recovery=nf.show(vh, 400), whole_grid_uses=sorted(set(bare)),
+                )
+                continue
             if bare:
                 raise AnalysisError(f"{q}: the time grid is used as a whole outside a quadrature abscissa ({bare}) - cannot decide shift invariance")
             ctx.check(
